@@ -1,6 +1,7 @@
 """Per-function driver: explore all paths, collect obligations."""
 from __future__ import annotations
 
+import re
 import time
 import traceback
 from dataclasses import dataclass, field
@@ -32,6 +33,67 @@ class FunctionResult:
 MAX_PATHS = 4000
 
 
+def weave_ghost(fi: FuncInfo, spec: dict) -> FuncInfo:
+    """Ghost code (DESIGN 12.2): statements of the sidecar contract woven into a *copy* of the real function's AST, each right after
+    every real statement whose source text matches a regular expression ("after"), or in front of it ("before").  Ghost statements may
+    only assign to, or call a method on, a local whose name starts with `ghost_`; they cannot change what the real code computes.
+    The sha256 / source recorded for the function stay those of the real text."""
+    import ast as _ast, copy as _copy, dataclasses as _dc
+
+    def parse_ghost(src):
+        body = _ast.parse(src).body
+        for st in body:
+            for n in _ast.walk(st):
+                tg = []
+                if isinstance(n, _ast.Assign):
+                    tg = n.targets
+                elif isinstance(n, (_ast.AugAssign, _ast.AnnAssign)):
+                    tg = [n.target]
+                elif isinstance(n, _ast.Expr) and isinstance(n.value, _ast.Call) and isinstance(n.value.func, _ast.Attribute):
+                    tg = [n.value.func.value]
+                elif isinstance(n, (_ast.Expr, _ast.Delete, _ast.Global, _ast.Nonlocal, _ast.Return, _ast.Raise, _ast.Break, _ast.Continue, _ast.Await, _ast.Yield)):
+                    raise Unsupported(f"ghost statement not allowed: {_ast.unparse(st)}")
+                for t in tg:
+                    while isinstance(t, (_ast.Subscript, _ast.Attribute)):
+                        t = t.value
+                    if not (isinstance(t, _ast.Name) and t.id.startswith("ghost_")):
+                        raise Unsupported(f"ghost statement writes a non-ghost location: {_ast.unparse(st)}")
+        return body
+
+    node = _copy.deepcopy(fi.node)
+    hits = {k: 0 for k in list(spec.get("after", {})) + list(spec.get("before", {}))}
+
+    def weave(stmts):
+        out = []
+        for st in stmts:
+            for fld in ("body", "orelse", "finalbody"):
+                if isinstance(getattr(st, fld, None), list) and not isinstance(st, (_ast.FunctionDef, _ast.AsyncFunctionDef, _ast.ClassDef)):
+                    setattr(st, fld, weave(getattr(st, fld)))
+            for h in getattr(st, "handlers", []) or []:
+                h.body = weave(h.body)
+            src = _ast.unparse(st) if not isinstance(st, (_ast.For, _ast.AsyncFor, _ast.While, _ast.If, _ast.Try, _ast.With, _ast.AsyncWith)) else None
+            if src is not None:
+                for pat, g in spec.get("before", {}).items():
+                    if re.fullmatch(pat, src, re.S):
+                        hits[pat] += 1
+                        for gs in parse_ghost(g):
+                            out.append(_ast.copy_location(gs, st)); _ast.fix_missing_locations(gs)
+            out.append(st)
+            if src is not None:
+                for pat, g in spec.get("after", {}).items():
+                    if re.fullmatch(pat, src, re.S):
+                        hits[pat] += 1
+                        for gs in parse_ghost(g):
+                            out.append(_ast.copy_location(gs, st)); _ast.fix_missing_locations(gs)
+        return out
+
+    node.body = weave(node.body)
+    missing = [k for k, v in hits.items() if v == 0]
+    if missing:
+        raise Unsupported(f"ghost code anchor not found in the real function: {missing}")
+    return _dc.replace(fi, node=node)
+
+
 def verify_function(reg: Registry, qualname: str, feas: bool = True) -> FunctionResult:
     ct = reg.contracts[qualname]
     t0 = time.time()
@@ -39,6 +101,11 @@ def verify_function(reg: Registry, qualname: str, feas: bool = True) -> Function
         fi = get_function(ct.path, ct.qualname)
     except (LookupError, FileNotFoundError, SyntaxError) as e:
         return FunctionResult(qualname, ct.path, "", 0, error=f"function missing: {e}")
+    if ct.ghost.get("ghost_code"):
+        try:
+            fi = weave_ghost(fi, ct.ghost["ghost_code"])
+        except Unsupported as e:
+            return FunctionResult(qualname, ct.path, fi.sha256, fi.lineno, error=f"outside subset: {e}")
     res = FunctionResult(qualname, ct.path, fi.sha256, fi.lineno)
     worklist: list[list[int]] = [[]]
     pid = 0
